@@ -47,7 +47,8 @@ type c16 struct {
 	res      *report.Result
 	verbose  bool
 	shard, n int
-	unit     int64
+	unit     int64 // running number of the cut set over the whole plan (identical in every shard)
+	done     int64 // cut sets run by this worker
 	deadline time.Time
 	capped   bool
 	seen     map[string]bool
@@ -158,7 +159,7 @@ func (h *c16) try(sc *streamCase, cs cutSet) {
 	if h.capped || int(h.unit%int64(h.n)) != h.shard {
 		return
 	}
-	if h.unit%4096 == 0 && !h.deadline.IsZero() && time.Now().After(h.deadline) {
+	if h.done++; h.done%1024 == 0 && !h.deadline.IsZero() && time.Now().After(h.deadline) {
 		h.capped = true
 		h.res.Cap("deadline reached in stream %s", sc.name())
 		return
@@ -184,6 +185,14 @@ func (h *c16) try(sc *streamCase, cs cutSet) {
 		c16Replay{Harness: "codec", Property: "C16", Entries: sc.Entries, Serializer: sc.Ser.String(), cutSet: cs})
 }
 
+// family counts the size of a family of cut sets; these are properties of the plan, so only
+// shard 0 reports them (the driver adds the counters of all workers).
+func (h *c16) family(name string, n int64) {
+	if h.shard == 0 {
+		h.res.Count(name, n)
+	}
+}
+
 // enumerate runs every cut set of the families for one stream.
 func (h *c16) enumerate(sc *streamCase, pairLimit int) {
 	n := len(sc.data)
@@ -204,11 +213,11 @@ func (h *c16) enumerate(sc *streamCase, pairLimit int) {
 	allPairs := n <= pairLimit
 
 	h.try(sc, cutSet{}) // all at once (the reference delivery)
-	h.res.Count("cutsets_unchunked", 1)
+	h.family("cutsets_unchunked", 1)
 	for c := 1; c < n; c++ { // every single cut
 		h.try(sc, cutSet{Cuts: []int{c}})
 	}
-	h.res.Count("cutsets_single", int64(n-1))
+	h.family("cutsets_single", int64(n-1))
 	for k := 1; k < n; k++ { // every uniform chunk size (k >= n is the unchunked delivery)
 		switch m := (n - 1) / k; { // number of cuts
 		case m == 1:
@@ -217,7 +226,7 @@ func (h *c16) enumerate(sc *streamCase, pairLimit int) {
 			continue // same as the pair (k, 2k)
 		}
 		h.try(sc, cutSet{Chunk: k})
-		h.res.Count("cutsets_uniform", 1)
+		h.family("cutsets_uniform", 1)
 	}
 	if allPairs {
 		for c1 := 1; c1 < n; c1++ {
@@ -225,16 +234,16 @@ func (h *c16) enumerate(sc *streamCase, pairLimit int) {
 				h.try(sc, cutSet{Cuts: []int{c1, c2}})
 			}
 		}
-		h.res.Count("cutsets_pairs_all", int64((n-1)*(n-2)/2))
-		h.res.Count("streams_with_all_pairs", 1)
+		h.family("cutsets_pairs_all", int64((n-1)*(n-2)/2))
+		h.family("streams_with_all_pairs", 1)
 	} else {
 		for i, c1 := range nearList {
 			for _, c2 := range nearList[i+1:] {
 				h.try(sc, cutSet{Cuts: []int{c1, c2}})
 			}
 		}
-		h.res.Count("cutsets_pairs_near_field_boundaries", int64(len(nearList)*(len(nearList)-1)/2))
-		h.res.Count("streams_with_near_boundary_pairs", 1)
+		h.family("cutsets_pairs_near_field_boundaries", int64(len(nearList)*(len(nearList)-1)/2))
+		h.family("streams_with_near_boundary_pairs", 1)
 	}
 }
 
@@ -301,13 +310,6 @@ func runC16(res *report.Result) {
 				res.Seen("message_types", sc.msg)
 				res.Note("stream %s: %d bytes, %d encoder writes, %d cut sets", sc.name(), len(sc.data), len(sc.starts), h.unit-before)
 				res.Sample(12, map[string]interface{}{"stream": sc.name(), "len": len(sc.data), "hex_prefix": hexPrefix(sc.data), "frame_ends": sc.ends, "encoder_writes": len(sc.starts)})
-			} else {
-				// the per-family counters are properties of the plan, not of the shard
-				for k := range res.Counters {
-					if len(k) > 8 && k[:8] == "cutsets_" || len(k) > 13 && k[:13] == "streams_with_" {
-						delete(res.Counters, k)
-					}
-				}
 			}
 		}
 	}
